@@ -9,7 +9,7 @@
   a `*big.Int` is an `Int`;  `uint64`/`uint`/`byte` values are `Nat`s.
   A Go run-time panic or an error pushed into the stack's error sink is `none`.
 -/
-namespace Shentu.EVM
+namespace Shentu.Arith
 
 /-! ### Burrow `evm.Stack` / `binary` -/
 
@@ -107,4 +107,4 @@ def bigRsh (x : Int) (n : Nat) : Int := x / 2 ^ n
 def signExtend (x : Int) (n : Nat) : Int :=
   if bigBit x (n - 1) = true then x % 2 ^ (n - 1) - 2 ^ (n - 1) else x % 2 ^ (n - 1)
 
-end Shentu.EVM
+end Shentu.Arith
